@@ -262,6 +262,11 @@ func runC18(c *core.Ctx) {
 				if l.RangeOver != nil || l.Op == "range" {
 					lv = l.Index(an)
 				}
+				if !l.Rotated() {
+					if q := earlyExit(an, h); q != nil {
+						okS, whyS = false, "the splice loop is left from inside its body: the upper levels of the new node are never linked"
+					}
+				}
 				for _, p := range an.Segs[h] {
 					if p.To != h {
 						continue
@@ -343,6 +348,9 @@ func runC18(c *core.Ctx) {
 				okL, whyL = false, "the unlink loop's bound is "+short(b)+": it must cover every level of the removed node (len(head.fingers), list.levels or len(v.fingers)); a shorter bound leaves the node linked on upper levels"
 			}
 			lv := an.Start[h].Reg(l.Phi)
+			if q := earlyExit(an, h); q != nil && !l.Rotated() {
+				okL, whyL = false, "the unlink loop is left from inside its body: the node stays linked on the levels above"
+			}
 			for _, p := range an.Segs[h] {
 				st := nonLocalStores(p)
 				if p.To != h {
